@@ -4,6 +4,7 @@ import (
 	"testing"
 
 	"pgregory.net/rapid"
+	"verif/elem"
 	"verif/vk"
 )
 
@@ -62,7 +63,8 @@ func seq(n int) []int {
 }
 
 // TestC18Exhaustive enumerates every one-operation history over a tiny
-// universe: all operand combinations of every operation, nil included.
+// universe: all operand combinations of every operation, nil included, for
+// every element kind (the plain int instantiation first).
 func TestC18Exhaustive(t *testing.T) {
 	h := vk.Start(t, "C18", "exh")
 	u := h.Pick(3, 4)        // universe {0..u-1}
@@ -71,20 +73,36 @@ func TestC18Exhaustive(t *testing.T) {
 	vals := setValues(u)
 	lists := argLists(u, maxArgs)
 	slot := h.Slot()
+	kind := ""
 	one := func(c Case) {
 		if h.Failed() {
 			return
 		}
+		c.Elem = kind
 		if msg := vk.One(h, slot, c, runSet); msg != "" {
 			p := h.Fail(c, msg)
 			t.Fatalf("VK-VIOLATION property=C18 leg=exh replay=%s\n%s", p, msg)
 		}
 	}
+	for _, kind = range append([]string{""}, elemKinds...) {
+		exhaustiveOne(one, vals, lists, maxInter)
+	}
+	if !h.Failed() {
+		h.Exhaustive()
+		h.Note("universe {0..%d}: %d set values (nil + %d subsets), item lists up to length %d (%d lists), Intersect argument lists up to length %d; all of it for Set[int] and for each of the element kinds %v", u-1, len(vals), len(vals)-1, maxArgs, len(lists), maxInter, elemKinds)
+	}
+}
+
+// exhaustiveOne is the enumeration for one element kind.
+func exhaustiveOne(one func(Case), vals, lists [][]int, maxInter int) {
 	// unary operations on every value
 	for _, s := range vals {
 		one(Case{Init: [][]int{s}, Ops: []Op{{K: "check"}}})
 		for _, k := range []string{"clear", "pop", "setnil"} {
 			one(Case{Init: [][]int{s}, Ops: []Op{{K: k, D: 0}}})
+		}
+		for b := 0; b < 3; b++ { // Clear with 1..3 NaN members besides s (Set[float64]; a plain Clear otherwise)
+			one(Case{Init: [][]int{s}, Ops: []Op{{K: "nanclear", D: 0, B: b}}})
 		}
 		for _, k := range []string{"clone", "keysv", "rangev"} {
 			one(Case{Init: [][]int{s}, Ops: []Op{{K: k, D: 1, S: []int{0}}}})
@@ -146,10 +164,6 @@ func TestC18Exhaustive(t *testing.T) {
 	}
 	one(Case{Init: [][]int{}, Ops: []Op{{K: "keys", D: 0, B: 1}}})   // nil map argument
 	one(Case{Init: [][]int{}, Ops: []Op{{K: "values", D: 0, B: 1}}}) // nil map argument
-	if !h.Failed() {
-		h.Exhaustive()
-		h.Note("universe {0..%d}: %d set values (nil + %d subsets), item lists up to length %d (%d lists), Intersect argument lists up to length %d", u-1, len(vals), len(vals)-1, maxArgs, len(lists), maxInter)
-	}
 }
 
 // ---------------------------------------------------------------------------
@@ -157,7 +171,7 @@ func TestC18Exhaustive(t *testing.T) {
 
 var histKinds = []string{
 	"add", "add", "add", "addall", "addall", "addall", "remove", "remove", "removeall", "removeall",
-	"pop", "pop", "clear", "setnil", "clone", "clone", "new", "intersect", "intersect", "intersect",
+	"pop", "pop", "clear", "nanclear", "setnil", "clone", "clone", "new", "intersect", "intersect", "intersect",
 	"keysv", "keys", "values", "range", "rangev",
 	"intersects", "intersects", "issubset", "issubset", "issubset", "equals", "equals", "hasall", "hasall", "hasany", "hasany",
 }
@@ -211,6 +225,8 @@ func genOp(t *rapid.T) Op {
 		}
 	case "addall", "removeall", "clone", "keysv", "rangev", "intersects", "issubset", "equals":
 		op.S = []int{genVar(t, "s")}
+	case "nanclear":
+		op.B = rapid.IntRange(0, 2).Draw(t, "nans")
 	case "intersect":
 		n := rapid.IntRange(0, 4).Draw(t, "nsets")
 		for i := 0; i < n; i++ {
@@ -222,8 +238,17 @@ func genOp(t *rapid.T) Op {
 
 var binaryKinds = []string{"intersects", "issubset", "equals", "addall", "removeall", "intersect"}
 
+// genElem draws the element kind: half of the cases keep Set[int] with the
+// ints themselves as members, the others are spread evenly over elemKinds.
+func genElem(t *rapid.T) string {
+	if !rapid.Bool().Draw(t, "otherElem") {
+		return ""
+	}
+	return rapid.SampledFrom(elemKinds).Draw(t, "elem")
+}
+
 func genHist(t *rapid.T) Case {
-	c := Case{Init: [][]int{genValue(t), genValue(t), genValue(t)}}
+	c := Case{Init: [][]int{genValue(t), genValue(t), genValue(t)}, Elem: genElem(t)}
 	c.Ops = rapid.SliceOfN(rapid.Custom(genOp), 0, 40).Draw(t, "ops")
 	// Construction instead of rejection: most histories get a binary operation
 	// applied in both operand orders (x op y, y op x) spliced in at drawn
@@ -246,10 +271,47 @@ func genHist(t *rapid.T) Case {
 		ins(mk(k1, x, y))
 		ins(mk(k2, y, x))
 	}
+	// Set[float64]: half of the histories get a Clear with NaN members at a
+	// drawn position (by construction: the operation is one of 37 kinds)
+	if c.Elem == elem.F64 && rapid.Bool().Draw(t, "nanclear") {
+		i := rapid.IntRange(0, len(c.Ops)).Draw(t, "nanPos")
+		op := Op{K: "nanclear", D: genVar(t, "nanVar"), B: rapid.IntRange(0, 2).Draw(t, "nans")}
+		c.Ops = append(c.Ops[:i], append([]Op{op}, c.Ops[i:]...)...)
+	}
 	return c
 }
 
 func TestC18Hist(t *testing.T) {
 	h := vk.Start(t, "C18", "hist")
 	vk.Rapid(h, t, genHist, runSet)
+}
+
+// ---------------------------------------------------------------------------
+
+// TestDoms: every element kind maps the model values one-to-one onto members
+// and back (tableDom panics on a clash), and 0 onto the zero value.
+func TestDoms(t *testing.T) {
+	for _, k := range elemKinds {
+		c := Case{Init: [][]int{{domLo, -1, 0, 1, domHi - 1}}, Ops: []Op{{K: "nanclear", D: 0}, {K: "add", D: 1, A: []int{3, 4, 5}}}, Elem: k}
+		if msg := vk.Guard(func() string { return runSet(c, &vk.Obs{}) }); msg != "" {
+			t.Fatalf("kind %s: %s", k, msg)
+		}
+	}
+	roundTrip(t, intDom())
+	roundTrip(t, strDom())
+	roundTrip(t, i16Dom())
+	roundTrip(t, wideDom())
+	roundTrip(t, ptrDom())
+	roundTrip(t, anyDom())
+	roundTrip(t, f64Dom())
+}
+
+func roundTrip[T comparable](t *testing.T, d *dom[T]) {
+	var zero T
+	for x := domLo; x < domHi; x++ {
+		e := d.of(x)
+		if got, ok := d.val(e); !ok || got != x || e != d.of(x) || (x == 0) != (e == zero) {
+			t.Fatalf("kind %s: %d -> %s -> %d (%v)", d.kind, x, d.repr(e), got, ok)
+		}
+	}
 }
